@@ -31,7 +31,7 @@ const (
 	Name        = "gregorian_proleptic"
 	Desc        = "Gregorian (proleptic)"
 	Epoch       = 1721426
-	MinMonthLen = 29
+	MinMonthLen = 28
 	MaxMonthLen = 31
 	AvgYearLen  = 365.2425 // FIXME
 )
